@@ -48,13 +48,64 @@ def finish(rng, c, force=None):
     return c
 
 
-def gen_pair_cases(rng, n):
+PAIR_KINDS = ['mu1', 'mu1', 'degenerate', 'degenerate', 'mu_one_nested', 'mu_one_cnl', 'gen', 'gen',
+              'legacy_nested', 'legacy_nested_mu', 'legacy_cnl', 'legacy_cnlmu']
+LEGACY_FNS = {'legacy_nested': ('nested', 'lognested'), 'legacy_nested_mu': ('nested_mev_mu', 'lognested_mev_mu'),
+              'legacy_cnl': ('cnl', 'logcnl'), 'legacy_cnlmu': ('cnlmu', 'logcnlmu')}
+
+
+def distinct_params(rng, c):
+    """nest parameters different from 1 and from each other (so that a mixed-up nest sum shows)"""
+    vals = rng.sample([1.25, 1.5, 1.75, 2.0, 2.5, 3.0, 4.0], len(c['nests']))
+    for j, nst in enumerate(c['nests']):
+        nst[0] = {'n': vals[j]} if rng.random() < 0.5 else {'e': ['Beta', f'MU{j + 1}', vals[j], rng.choice([0, 1])]}
+    return {f'MU{j + 1}': vals[j] for j in range(len(c['nests']))}
+
+
+def gen_pair_cases(rng, n, plan=None):
+    """plan: list of (kind, syntax, const_av, name_mode) that must be produced first (the systematic block)"""
     cases = []
-    for _ in range(n):
-        kind = rng.choice(['mu1', 'mu1', 'degenerate', 'degenerate', 'mu_one_nested', 'mu_one_cnl', 'gen', 'gen'])
-        syn = rng.choice(['legacy', 'objects'])
+    plan = list(plan or [])
+    for it in range(n + len(plan)):
+        if it < len(plan):
+            kind, syn, const_av, name_mode = plan[it]
+        else:
+            kind = rng.choice(PAIR_KINDS)
+            syn = rng.choice(['legacy', 'objects'])
+            const_av = rng.random() < 0.2
+            name_mode = rng.choice([None, None, 'equal', 'collision', 'mixed']) if syn == 'objects' else None
+        if kind.startswith('legacy'):
+            syn = 'objects'
+            name_mode = name_mode or rng.choice(['equal', 'collision', 'history', 'explicit', 'mixed'])
+
+        def tweak(c):
+            if const_av:
+                c['av'] = base.g_const_av(rng, [k for k, _ in c['util']])
+            if name_mode:
+                base.add_names(rng, c, name_mode)
+            return c
+
+        force0 = {}
+        if kind.startswith('legacy'):
+            fam = kind[len('legacy_'):]
+            while True:
+                c = (value_case_nested(rng, fam == 'nested_mu') if fam.startswith('nested')
+                     else value_case_cnl(rng, fam == 'cnlmu'))
+                if len(c['nests']) >= 2:
+                    break
+            force0 = distinct_params(rng, c)
+            tweak(c)
+            finish(rng, c, force0)
+            pf, lf = LEGACY_FNS[kind]
+            c['calls'] = [{'name': 'AV', 'fn': 'AV'},
+                          {'name': 'lhs', 'fn': pf, 'syntax': 'objects'}, {'name': 'rhs', 'fn': pf, 'syntax': 'legacy'},
+                          {'name': 'lhs_log', 'fn': lf, 'syntax': 'objects'},
+                          {'name': 'rhs_log', 'fn': lf, 'syntax': 'legacy'}]
+            c['pair_kind'] = kind
+            cases.append(c)
+            continue
         if kind == 'mu1':
-            c = value_case_nested(rng)
+            c = tweak(value_case_nested(rng))
             force = {}
             for j, nst in enumerate(c['nests']):
                 nst[0] = one_variant(rng, f'MU{j + 1}')
@@ -65,7 +116,7 @@ def gen_pair_cases(rng, n):
                           {'name': 'lhs', 'fn': 'nested', 'syntax': syn}, {'name': 'rhs', 'fn': 'logit'},
                           {'name': 'lhs_log', 'fn': 'lognested', 'syntax': syn}, {'name': 'rhs_log', 'fn': 'loglogit'}]
         elif kind == 'degenerate':
-            c = value_case_nested(rng)     # a partition; turned into cross-nested nests with alpha = 1
+            c = tweak(value_case_nested(rng))     # a partition; turned into cross-nested nests with alpha = 1
             force = {}
             nn = c['nests']
             cn = []
@@ -94,7 +145,7 @@ def gen_pair_cases(rng, n):
                           {'name': 'lhs_log', 'fn': 'logcnl', 'syntax': syn},
                           {'name': 'rhs_log', 'fn': 'lognested', 'nests': nn, 'syntax': syn}]
         elif kind in ('mu_one_nested', 'mu_one_cnl'):
-            c = value_case_nested(rng, True) if kind == 'mu_one_nested' else value_case_cnl(rng, True)
+            c = tweak(value_case_nested(rng, True) if kind == 'mu_one_nested' else value_case_cnl(rng, True))
             c['mu'] = one_variant(rng, 'MU')
             finish(rng, c, {'MU': 1})
             if kind == 'mu_one_nested':
@@ -106,8 +157,11 @@ def gen_pair_cases(rng, n):
                           {'name': 'lhs_log', 'fn': fns[2], 'syntax': syn},
                           {'name': 'rhs_log', 'fn': fns[3], 'syntax': syn}]
         else:
-            c = value_case_nested(rng)
-            finish(rng, c)
+            c = tweak(value_case_nested(rng))
+            if name_mode and len(c['nests']) >= 2:
+                finish(rng, c, distinct_params(rng, c))
+            else:
+                finish(rng, c)
             calls = [{'name': 'AV', 'fn': 'AV'}, {'name': 'V', 'fn': 'V'},
                      {'name': 'lnG', 'fn': 'lnG_nested', 'syntax': syn}, {'name': 'G', 'fn': 'gen', 'syntax': syn}]
             for k, _ in c['util']:
@@ -188,11 +242,21 @@ def stream_pairs(ctx, n_quick=110, n_thorough=1500):
                     'nest vs nested on the induced partition; *_mu builders with mu = 1 vs unscaled (1e-9 relative, '
                     'probabilities and log-probabilities, all alternatives); central difference of '
                     'get_mev_generating_for_nested in each V_i vs exp(V_i + ln G_i) from get_mev_for_nested '
-                    '(1e-5 relative), including alternatives outside every nest; legacy / object syntax at random; '
+                    '(1e-5 relative), including alternatives outside every nest; nest objects (with user names, equal names, names '
+                    'kept from an earlier specification) vs the legacy tuples for nested / nested+mu / cnl / cnl+mu; '
+                    'availabilities given as plain Python numbers with a 0; legacy / object syntax at random; '
                     'non-trivial = row with an available alternative')
     rng = ctx.sub_rng('pairs')
     cases = [d['case'] for p, d in load_corpus('C06') if d.get('stream') == 'pairs']
-    cases += gen_pair_cases(rng, ctx.n(n_quick, n_thorough))
+    plan = [('mu1', 'legacy', True, None), ('mu1', 'objects', True, 'collision'),
+            ('mu_one_nested', 'legacy', True, None), ('mu_one_cnl', 'objects', True, None),
+            ('degenerate', 'objects', True, None), ('gen', 'legacy', True, None)]
+    for kind in ('legacy_nested', 'legacy_nested_mu', 'legacy_cnl', 'legacy_cnlmu'):
+        plan += [(kind, 'objects', False, 'collision'), (kind, 'objects', False, 'equal'),
+                 (kind, 'objects', True, 'history')]
+    plan += [('degenerate', 'objects', False, 'collision'), ('degenerate', 'objects', False, 'equal'),
+             ('gen', 'objects', False, 'collision'), ('gen', 'objects', False, 'equal')]
+    cases += gen_pair_cases(rng, ctx.n(n_quick, n_thorough), plan=plan)
     results = run_value_cases(ctx, cases)
     kinds = {}
     for c, res in zip(cases, results):
@@ -225,7 +289,9 @@ def pair_cases_from_build(rng, bc):
     out = []
     kind = bc.get('kind')
     fam = base.KIND_FAMILY.get(kind)
-    if fam not in ('nested', 'nested_mu', 'cnlmu', 'cnl') or len(bc.get('util', [])) < 2:
+    if fam not in ('nested', 'nested_mu', 'cnlmu', 'cnl') or len(bc.get('util', [])) < 2 or bc.get('fault'):
+        return out
+    if fam in ('cnlmu', 'cnl') and not base.cnl_alphas_positive(bc):
         return out
     syn = (bc.get('syntaxes') or ['legacy'])[0]
 
